@@ -27,6 +27,7 @@ type EntrySpec struct {
 type ReadSpec struct {
 	Extra int   // count = largest encoded entry + Extra
 	Wrong int64 // ≠0: first try a read at (running offset + Wrong), which must be rejected
+	Zero  bool  // first try a read at offset 0 (rejected unless the running offset is 0)
 }
 
 type ListCase struct {
